@@ -106,6 +106,10 @@ def hostile_paths(rng, paths):
         out.add(p.replace("/", "//"))
         out.add(p.replace("/", "///", 1))
         out.add(p + "é")
+        # repeated slashes *inside* what a trailing path converter takes, with and without the final slash
+        out.add(p.rstrip("/") + "//zz")
+        out.add(p.rstrip("/") + "//zz/")
+        out.add(p.rstrip("/") + "/http://x.example/y")
         out.add(p.rstrip("/") + "/%25/" if rng.random() < 0.3 else p + "?x#y")
     return sorted(out)
 
@@ -248,7 +252,7 @@ def check_map(rec, rng, rules, strict, merge, rd, script, scheme, sub):
         bad = None
         first_target = unquote(u.path[len(sp):])
         hop_kinds = ["slash" if first_target == pp + "/" else "merge" if R.merge(pp).rstrip("/") == R.merge(first_target).rstrip("/") else "canonical"]
-        while hops < 6:
+        while hops < 8:
             path = unquote(urlsplit(cur).path[len(sp):])
             try:
                 final = A.match(path, method=method, **mkw)
@@ -284,11 +288,27 @@ def check_map(rec, rng, rules, strict, merge, rd, script, scheme, sub):
             rec.violation("C12/redirects-do-not-converge", f"{url!r}: still redirecting after {hops} hops; {case}", case, monitor="follow")
             continue
         if hops >= 3:
-            rec.violation("C12/redirect-chain-too-long", f"{url!r}: {hops + 1} redirects; {case}", case, monitor="follow")
-            continue
+            # merge, slash, defaults and alias canonicalisation can follow each other (one of each kind); the property
+            # bounds repetition of a kind and demands termination, not a chain length
+            rec.observe("redirect_chains_of_four_or_more")
         rec.observe("followed_to_match")
         den = lenient_denotation(rules, pp, method)
         got = (final[0], tuple(sorted(final[1].items(), key=lambda kv: kv[0])))
+        # what the path denotes *as given* (only a trailing slash may be missing): repeated slashes that are part of
+        # a value (a path converter, a rule that keeps them) are part of what is requested
+        den_exact = set()
+        for r_ in rules:
+            if R.ok_method(r_, method):
+                for v_ in (pp, pp + "/"):
+                    for st_ in (True, False):
+                        a_ = R.admits(r_, v_, st_)
+                        if a_ and a_[0] == "match":
+                            args_ = dict(a_[1])
+                            args_.update(r_.get("defaults") or {})
+                            den_exact.add((r_["ep"], tuple(sorted(args_.items(), key=lambda kv: kv[0]))))
+        if den_exact and got not in den_exact and got in den and not pp.endswith("//") and "///" not in pp and not pp.startswith("//"):
+            rec.violation("C12/redirect-changes-what-is-requested", f"{p!r} -> {url!r} finally matches {got!r}; as given (plus a trailing slash) the path denotes {sorted(den_exact)!r}", case, monitor="denotation")
+            continue
         if got not in den:
             # the map itself may be ambiguous at the target (two rules admit the canonical URL): which of them wins is
             # C03's subject; the redirect is wrong only if no rule admitting the target carries the original denotation
@@ -467,6 +487,63 @@ def concurrent_first_use(rec, rng, n):
                 for p, got in out:
                     if got != exp[p]:
                         rec.violation("C12/concurrent-first-use-alias-redirect", f"thread {i}: match({p!r}) -> {got!r}, expected redirect to {exp[p]!r}", {"path": p, "rules": [r.rule for r in rules]}, monitor="schedule-stress")
+        # ---- steady state: requests of different methods and kinds overlap on one sorted map; whether a request is
+        # redirected depends on its own method / kind only.  Yields inside the matcher's match() and its helpers.
+        import sys as _sys
+
+        from werkzeug.exceptions import HTTPException
+
+        for c_ in codes:
+            mon.set_local_events(TOOL, c_, 0)
+        mcodes = [f.__code__ for f in vars(_MM.StateMachineMatcher).values() if hasattr(f, "__code__") and f.__name__ not in ("__init__", "add", "update")]
+        for c_ in list(mcodes):
+            mcodes += [k for k in c_.co_consts if hasattr(k, "co_code")]
+        for c_ in mcodes:
+            mon.set_local_events(TOOL, c_, mon.events.LINE)
+        codes += mcodes
+        m2 = Map([Rule("/items/<int:id>/", endpoint="item", methods=["GET"]), Rule("/chat/<int:id>/", endpoint="chat", websocket=True),
+                  Rule("/list/", endpoint="list", defaults={"page": 1}, methods=["GET"]), Rule("/list/<int:page>", endpoint="list"), Rule("/plain/<path:p>", endpoint="plain")])
+        m2.update()
+        ad_http, ad_ws = m2.bind("h.com", "/app"), m2.bind("h.com", "/app", url_scheme="ws")
+        reqs = [(ad_http, "/items/7", "GET"), (ad_http, "/items/7", "POST"), (ad_http, "/chat/7", "GET"), (ad_ws, "/chat/7", "GET"), (ad_ws, "/items/7", "GET"),
+                (ad_http, "/list/1", "GET"), (ad_http, "/list/1", "POST"), (ad_http, "/plain/a", "DELETE"), (ad_http, "/nope", "GET")]
+
+        def outcome3(ad_, p_, meth_):
+            try:
+                ep_, args_ = ad_.match(p_, method=meth_)
+                return ("match", ep_, tuple(sorted(args_.items())))
+            except RequestRedirect as e_:
+                return ("redirect", e_.new_url)
+            except HTTPException as e_:
+                return (type(e_).__name__,)
+            except Exception as e_:  # noqa: BLE001
+                return ("EXC", type(e_).__name__)
+
+        alone = [outcome3(*rq) for rq in reqs]
+        wrong = []
+        old_si = _sys.getswitchinterval()
+        _sys.setswitchinterval(1e-5)
+        try:
+            def steady(i):
+                r_ = __import__("random").Random(i)
+                for _ in range(100):
+                    k_ = r_.randrange(len(reqs))
+                    got_ = outcome3(*reqs[k_])
+                    if got_ != alone[k_] and len(wrong) < 3:
+                        wrong.append((reqs[k_][1:], got_, alone[k_]))
+
+            ts = [threading.Thread(target=steady, args=(i,)) for i in range(4)]
+            for t in ts:
+                t.start()
+            for t in ts:
+                t.join(120)
+        finally:
+            _sys.setswitchinterval(old_si)
+        rec.case()
+        rec.observe("concurrent_steady_state_matches", 400)
+        rec.nontrivial(("conc-steady", len(reqs)))
+        for rq, got_, exp_ in wrong[:1]:
+            rec.violation("C12/concurrent-requests-interfere", f"match{rq!r} on one of 4 threads: {got_!r}; alone: {exp_!r}", {"request": list(rq)}, monitor="schedule-stress")
     finally:
         for c_ in codes:
             mon.set_local_events(TOOL, c_, 0)
